@@ -309,10 +309,21 @@ func prngCase(c *mon.Case) {
 	}
 	for variant := 0; variant < 6; variant++ {
 		var rdr io.Reader
+		// the seed buffers belong to the caller: they are overwritten right after construction; the stream is a
+		// function of what they held when the reader was built
+		scratch := make([][]byte, len(datas))
+		for i := range datas {
+			scratch[i] = append([]byte(nil), datas[i]...)
+		}
 		if variant%2 == 0 {
-			rdr = prng.BuildSeededReader(datas...)
+			rdr = prng.BuildSeededReader(scratch...)
 		} else {
-			rdr = prng.SourceToReader(prng.BuildSeededRand(datas...))
+			rdr = prng.SourceToReader(prng.BuildSeededRand(scratch...))
+		}
+		for i := range scratch {
+			for j := range scratch[i] {
+				scratch[i][j] ^= 0xa5
+			}
 		}
 		got := make([]byte, 0, total)
 		var chunks []int
